@@ -85,6 +85,14 @@ def run(ctx):
             ctx.violation(fails[0], src=c['src'], opts=c['opts'], all=fails[:3], case=semrun.pack(c))
         if len(ctx.samples) < 3:
             ctx.sample({'src': c['src'][:300], 'out': (r.get('txt') or '')[:200]})
+    mc = ml_cases(rng, ctx.scale(400, 8000))
+    mres = ctx.pmap(t2t.run_case, mc)
+    for c, r in zip(mc, mres):
+        ctx.case(c['src']); ctx.count('multi_language_docs')
+        f = judge_ml(c, r)
+        if f:
+            ctx.violation(f[0], src=c['src'], opts=c['opts'], multi=True, thresh=c['thresh'], ml=True)
+    corr.t2t(ctx, mc, mres, proj=('outcome', 'toks', 'text'), limit=len(mc))
     rc = replaced_cases(rng)
     rres = ctx.pmap(t2t.run_case, rc)
     for c, r in zip(rc, rres):
@@ -144,11 +152,53 @@ def judge_replaced(case, res):
                 % (seq, at + 1, val, txt, pos)]
     return []
 
+def ml_cases(rng, n):
+    """multi-language mode: words of the main text and of short / long foreign insertions, with every amount of white
+    space at both ends of the insertion (none, one blank, two blanks, blank + line break, tab): every copied word of
+    every part stands in the source at the offsets it is mapped to"""
+    out = []
+    WS = ['', ' ', '  ', ' \n', '\n ', '\t', '   ', ' \n  ']
+    names = ['german', 'russian', 'french', 'english']
+    def w():
+        return 'Q' + ''.join(rng.choice('abcdefghijklmnopqrstuvwxyz') for _ in range(rng.randint(2, 5)))
+    for _ in range(n):
+        parts = ['\\usepackage{babel}\n']
+        for _ in range(rng.randint(1, 3)):
+            parts.append(' '.join(w() for _ in range(rng.randint(1, 4))) + rng.choice([' ', '\n', '']))
+            k = rng.choice([1, 1, 2, 3, 3, 6])
+            body = rng.choice(WS) + ' '.join(w() for _ in range(k)) + rng.choice(WS)
+            if rng.random() < 0.75:
+                parts.append('\\foreignlanguage{%s}{%s}' % (rng.choice(names), body))
+            else:
+                parts.append('\\begin{otherlanguage*}{%s}%s\\end{otherlanguage*}' % (rng.choice(names), body))
+            parts.append(rng.choice(['', ' ', '\n']) + ' '.join(w() for _ in range(rng.randint(1, 3))) + rng.choice(['. ', '.\n', ' ']))
+        out.append({'src': ''.join(parts), 'opts': {'lang': rng.choice(['en-GB', 'de-DE', 'ru-RU']), 'pack': '*'}, 'multi': True,
+                    'thresh': rng.choice([0, 1, 2, 3, 3, 5]), 'kind': 'ml-copy', 'words': []})
+    return out
+
+def judge_ml(case, res):
+    if res['outcome'] != 'ok':
+        return []
+    src = case['src']
+    for lang, ps in res['parts']:
+        for (t, p) in ps:
+            if len(t) != len(p):
+                return ['part of %s: text and position list differ in length (%d, %d)' % (lang, len(t), len(p))]
+            for wd, i in semrun.out_words(t):
+                if src.count(wd) == 1:
+                    st = src.index(wd)
+                    if p[i:i + len(wd)] != list(range(st + 1, st + 1 + len(wd))):
+                        return ['multi-language part %s: word %r stands at offset %d but maps to %r' % (lang, wd, st + 1, p[i:i + len(wd)])]
+    return []
+
 def accent_verb_class(src):
     import re
     return re.search(r'\\[\'`^"~=.cvuHrkdb]\s*\{?\s*\\verb', src) is not None
 
 def judge_witness(w):
+    if w.get('ml'):
+        c = {'src': w['src'], 'opts': w.get('opts') or {}, 'multi': True, 'thresh': w.get('thresh', 3), 'words': []}
+        return judge_ml(c, t2t.run_case(c))
     if w.get('replaced'):
         c = {'src': w['src'], 'opts': w.get('opts') or {}, 'multi': False, 'words': [], 'seq': w['replaced']['seq'],
              'at': w['replaced']['at'], 'what': tuple(w['replaced']['what'])}
@@ -165,7 +215,7 @@ def replay(data):
         print('\n'.join(f) if f else 'ok')
         return not f
     f = judge_witness(data['violation'])
-    if data['violation'].get('replaced'):
+    if data['violation'].get('replaced') or data['violation'].get('ml'):
         print('\n'.join(f) if f else 'ok')
         return not f
     print('\n'.join(f) if f else 'ok (token-level oracle; the word-level oracle needs the AST)')
